@@ -184,8 +184,9 @@ class Driver:
         c = [i for i, k in self.kind.items() if k == kind]
         return c[self.rng.randint(len(c))] if c else None
 
-    def step(self, op=None):
+    def step(self, op=None, force=None):
         h, rng = self.h, self.rng
+        force = force or {}
         ops = ["NewArr", "NewTs", "NewRec", "CopyRec", "CopyRec", "CopyTs", "Split", "SplitTs", "TsInPlace", "InPlace", "InPlace", "InPlace", "InPlace",
                "Edit", "Edit", "Edit", "Save", "Save", "Load", "Load"]
         op = op or ops[rng.randint(len(ops))]
@@ -231,7 +232,7 @@ class Driver:
             g = groups[rng.randint(len(groups))]
             t1, t2, t3 = (g[rng.randint(len(g))] for _ in range(3))
             r = self.nid("r")
-            deg = float(rng.choice([0.0, 15.0, -30.0, 400.0]))
+            deg = float(force.get("deg", rng.choice([0.0, 15.0, -30.0, 400.0])))
 
             def f():
                 rec = h.SeismicRecording3C(self.live[t1], self.live[t2], self.live[t3], degrees_from_north=deg,
@@ -311,7 +312,7 @@ class Driver:
             if o is None:
                 return
             rec = self.live[o]
-            what = str(rng.choice(["trim", "filter", "detrend", "taper", "orient"]))
+            what = str(force.get("what", rng.choice(["trim", "filter", "detrend", "taper", "orient"])))
             if what == "trim" and rec.ns.n_samples < 12:
                 what = "detrend"
             if what == "filter" and rec.ns.n_samples < 40:      # sosfiltfilt needs more samples than its padding (33)
@@ -330,7 +331,7 @@ class Driver:
                     elif what == "taper":
                         rec.window("tukey", float(rng.choice([0.1, 0.5, 1.0])))
                     else:
-                        rec.orient_sensor_to(float(rng.choice([0.0, 45.0, -30.0, 90.0, 400.0, 37.5])))
+                        rec.orient_sensor_to(float(force.get("angle", rng.choice([0.0, 45.0, -30.0, 90.0, 400.0, 37.5]))))
             return self.log("InPlace", dict(o=o), [], f, what=what)
         if op == "Edit":
             cands = [i for i, k in self.kind.items() if k in ("arr", "ts", "rec")]
@@ -381,8 +382,17 @@ def histories(run, h):
     traces = []
     for t in range(ntr):
         d = Driver(h, rng, wd)
-        for op in ("NewArr", "NewTs", "NewTs", "NewTs", "NewRec"):
+        for op in ("NewArr", "NewTs", "NewTs", "NewTs"):
             d.step(op)
+        if t % 4 == 1:
+            # a sensor deployed at an angle, turned to exactly 0 degrees (the default target of the preprocessing), saved and loaded:
+            # the orientation 0 is a value like any other
+            d.step("NewRec", force=dict(deg=(15.0, -30.0, 400.0)[(t // 4) % 3]))
+            d.step("InPlace", force=dict(what="orient", angle=0.0))
+            d.step("Save")
+            d.step("Load")
+        else:
+            d.step("NewRec")
         for _ in range(nsteps):
             d.step()
             if len(d.live) > 16 or d.failed:
